@@ -2,6 +2,7 @@ package props
 
 import (
 	"bytes"
+	"encoding/hex"
 	"encoding/json"
 	"fmt"
 	"net"
@@ -201,7 +202,12 @@ func c12Fault(w *world.World, r *world.Remote, el c12Elem) int64 {
 		if !ok {
 			return -1
 		}
-		r.Send(wire.Notification(byte(code), byte(sub), nil))
+		var data []byte
+		if i := strings.IndexByte(el.Kind, '#'); i >= 0 {
+			// "...#<hex>": data octets of the NOTIFICATION (whatever they look like, they are data)
+			data, _ = hex.DecodeString(el.Kind[i+1:])
+		}
+		r.Send(wire.Notification(byte(code), byte(sub), data))
 		t := vrt.Cur().Now()
 		r.Deadline(5 * time.Second)
 		r.Drain()
@@ -689,6 +695,23 @@ func c12Check(c *harness.Ctx) {
 				}
 				if st == 2 && !run(c12Case{Elems: []c12Elem{{Kind: "sent-badopen", Dir: dir}, cease, {Kind: "rcv3@2", Dir: dir}}, Passive: dir == "in"}) {
 					return
+				}
+			}
+			// ... and neither do the data octets: a Cease whose data happens to read like another error (the
+			// RFC 8538 Hard Reset layout: subcode 9, data = code, subcode, ...) is a Cease, and a protocol error
+			// whose data reads like a Cease is a protocol error
+			if st != 1 {
+				for _, sub := range []int{9, 2, 0} {
+					for _, data := range []string{"0400", "0202", "0101ffff", "06", "0301c0"} {
+						if !run(c12Case{Elems: []c12Elem{{Kind: fmt.Sprintf("rcv6.%d@%d#%s", sub, st, data), Dir: dir}}, Passive: dir == "in"}) {
+							return
+						}
+					}
+				}
+				for _, data := range []string{"0609", "0602"} {
+					if !run(c12Case{Elems: []c12Elem{{Kind: fmt.Sprintf("rcv3.1@%d#%s", st, data), Dir: dir}}, Passive: dir == "in"}) {
+						return
+					}
 				}
 			}
 			for _, cs := range [][2]int{{1, 0}, {1, 2}, {2, 0}, {2, 2}, {2, 7}, {3, 0}, {3, 11}, {4, 0}, {5, 0}, {5, 3}, {7, 0}, {2, 255}} {
